@@ -468,6 +468,16 @@ def gen_trees(seed, count, maxdepth):
     stackish = [("seq", [("push", ("str", b"a")), x]) for x in (("pop",), ("peek",), ("match_peek",), ("match_pop",), ("drop",), ("peek_slice", 0, None, True))]
     stackish += [("seq", [("push", ("charby", "any")), ("push", ("charby", "any")), x]) for x in
                  (("match_pop",), ("match_peek",), ("peek_slice", 0, None, False), ("peek_slice", -1, None, True), ("peek_slice", 0, 1, True), ("seq", [("pop",), ("pop",)]), ("seq", [("drop",), ("peek",)]))]
+    # nested checkpoints: a succeeding inner sequence pops across the enclosing checkpoint, then the enclosing construct fails / is a look-ahead
+    for tail in (("str", b"!"), ("eoi",)):
+        stackish += [("seq", [("push_lit", b"a"), ("opt", ("seq", [("push_lit", b"b"), ("seq", [("pop",), ("pop",)]), tail])), ("peek_slice", 0, None, True)]),
+                     ("seq", [("push", ("str", b"a")), ("choice", [("seq", [("push", ("str", b"b")), ("seq", [("drop",), ("drop",)]), tail]), ("chain", [("str", b"bba"), ("pop",)])])]),
+                     ("seq", [("push_lit", b"x"), ("look", True, ("seq", [("push_lit", b"y"), ("seq", [("drop",), ("drop",)])])), ("peek",)]),
+                     ("seq", [("push_lit", b"a"), ("restore_on_err", ("seq", [("push_lit", b"b"), ("restore_on_err", ("chain", [("drop",), ("drop",)])), tail])), ("drop",)])]
+    # a slice match that fails part-way as the direct operand of a choice / optional / repetition
+    stackish += [("seq", [("push", ("str", b"a")), ("push", ("str", b"b")), ("choice", [("match_peek",), ("chain", [("str", b"b"), ("str", b"c")])]), ("eoi",)]),
+                 ("seq", [("push_lit", b"ab"), ("push_lit", b"cd"), ("opt", ("peek_slice", 0, 2, False)), ("charby", "any")]),
+                 ("chain", [("push_lit", b"a"), ("push_lit", b"b"), ("choice", [("peek_slice", 0, None, False), ("str", b"ax")])])]
     stackish += [("pop",), ("peek",),
                  ("rep", ("rule", 1, ("str", b"a"))), ("opt", ("rule", 1, ("seq", [("str", b"a"), ("str", b"b")]))),
                  ("look", False, ("rule", 1, ("str", b"a"))), ("rule", 1, ("seq", [("str", b"a"), ("rep", ("rule", 2, ("range", 0x61, 0x7a)))])),
